@@ -1,12 +1,15 @@
 """
 C17 - delimited list / key=value / INI text decodes to what was encoded.
 
-Lean: lean/N0Verif/Model/Esc.lean, Proofs/Esc.lean, Props/C17.lean, Drv/Esc.lean
+Lean: lean/N0Verif/Model/Esc.lean, Proofs/Esc.lean, Drv/Esc.lean; Model/Ini.lean, Proofs/Ini.lean, Drv/Ini.lean; Props/C17.lean
 B streams: esc.split (random + exhaustive small scope), esc.spec (the Python transcription of the
-  specification against Lean's `splitSpec`), esc.dlist, esc.kv, esc.ddict, esc.ser, esc.unesc, esc.rt
+  specification against Lean's `splitSpec`), esc.dlist, esc.kv, esc.ddict, esc.ser, esc.unesc, esc.rt;
+  ini.value (default_parse_value), ini.isnum (isnumber, every boundary of str.isnumeric), ini.parse (parse_ini on lines
+  with comments, blanks, quotes, numbers, '+=' keys), ini.rt (load_ini(save_file(m)) through a real file), ini.read (load_lines)
 C evaluators: split = one-pass specification, no-escape = plain split, totality, independence of
   neighbours, join round trip, key=value (first tag splits), flat mapping round trip, reserved characters protected, nested mappings serialise, default value,
-  INI round trip (load_ini(save_file(m)) against a reference written from the statement)
+  INI round trip (load_ini(save_file(m)) against a reference written from the statement), ini_lines (parse_ini against the
+  reference), ini_concat ('K=a','K+=b' / unseen key / blank before '+='), ini_comments (comment and blank lines change nothing)
 """
 import itertools
 import os
@@ -20,26 +23,41 @@ MANIFEST = dict(
     technique="Lean 4 theorems over a hand-written model (fuelled while/for/else/pop loop, with a fuel-adequacy theorem) "
               "+ differential correspondence with the implementation + the statement executed on the implementation",
     text="Lean theorems, unbounded in text length, number of items and item contents, for the code with fix patches "
-         "C17-a..d applied: C17_total (split_with_escape returns for every text, every non-empty delimiter, every maxsplit, "
+         "C17-a..g applied: C17_total (split_with_escape returns for every text, every non-empty delimiter, every maxsplit, "
          "escape character None or one character, trim on/off; the model's fuel is adequate: C17_fuel_adequate); "
          "C17_no_escape_is_split (escape character absent from the text => the result is str.split(delimiter, maxsplit), "
          "the empty delimiter's ValueError included); C17_odd_run_stays (when the delimiter does not end with the escape "
          "character the result equals the one-pass specification splitSpec: the delimiter after a piece stays inside the "
          "item exactly when that piece ends with an odd run of escapes, the trailing run of a closed item is halved when "
          "trimming; C17_general_spec gives the reference without that hypothesis); C17_independent (the items before and "
-         "after a closed boundary are computed independently); C17_join_roundtrip / C17_join_roundtrip_drop_empty / "
-         "C17_join_roundtrip_escape (deserialize_list(delimiter.join(items)) returns the items for non-empty item lists whose "
+         "after a closed boundary are computed independently); C17_join_roundtrip / C17_join_roundtrip_drop_empty "
+         "(deserialize_list(delimiter.join(items)) returns the items for non-empty item lists whose "
          "items contain no delimiter character, with parse_empty; without it the empty items are dropped); "
-         "C17_dict_roundtrip (flat mapping with unique keys free of separator characters, ASCII string values over the "
-         "whole reserved alphabet, separators non-empty, containing no backslash, 'x' or lower-case hex digit and sharing no character: "
+         "C17_dict_roundtrip (flat mapping with unique keys free of separator characters, string values over every character - "
+         "inside and outside ASCII since fix C17-e - and the whole reserved alphabet; separators non-empty, containing no "
+         "backslash, 'x' or lower-case hex digit, sharing no character, and no 'u'/'U' when one of their characters is above U+00FF: "
          "unescape(deserialize_dict(serialize_dict(m))) == m); C17_nested_serialises (serialize_dict raises nothing on any "
          "tree of mappings/lists/scalars in which no list directly contains None); C17_default_value (an item without the "
          "equal tag yields (item, default_value)); C17_key_value (the first equal tag splits); C17_values_protected (the text "
-         "written for a value contains no delimiter/equal-tag character, brace, bracket or quote). Counter-example theorems: C17_nonascii_cex, C17_list_none_cex, "
-         "C17_maxsplit_escape_example. The INI part (parse_ini/load_ini/default_parse_value/split_pair) has no Lean model: "
-         "it is checked only by running load_ini(save_file(m)) against a reference written from the statement.",
-    note="unescape is modelled as UTF-8 encoding followed by CPython's unicode_escape decoder (validated by stream esc.unesc); "
-         "upper()/lower() only for ASCII (otherwise unsupported). Open finding C17-e: text outside ASCII does not survive unescape.",
+         "written for a value contains no delimiter/equal-tag character, brace, bracket or quote). "
+         "INI (model of parse_ini, split_pair, default_parse_value, isnumber, the lines save_file writes and load_lines reads): "
+         "C17_ini_roundtrip / C17_ini_roundtrip_scalars / C17_ini_roundtrip_unique (for every non-empty equal tag and every mapping whose "
+         "keys are non-empty stripped ASCII names without equal-tag characters that start no comment and do not end with '+', and whose values "
+         "are integers or texts: parsing the lines save_file writes gives upper-cased keys and typed values, in dict order); "
+         "C17_ini_file_roundtrip (the same through '\\n'.join and line reading when nothing contains a line break); "
+         "C17_ini_value_typing + C17_ini_typing_cases + C17_ini_loaded (which texts load as numbers: [+-]digits is that int, "
+         "[+-]digits.digits is that decimal printed without superfluous zeros, matching quotes are removed, everything else - also "
+         "'.', '- 5' that isnumber lets through - is the stripped text; an int value loads as itself); "
+         "C17_ini_concat / _seen / _unseen ('K=a' then 'K+=b', with or without blanks before '+', stores str(a)+str(b); on an unseen key "
+         "the marker '\\x16' followed by str(b)); C17_ini_comments_ignored / C17_ini_comment_line_ignored (blank lines and lines starting "
+         "with '#' or '//' after leading white space can be removed anywhere). Hypothesis Exact of the INI value theorems: no numeric or "
+         "white-space character outside ASCII, decimals with at most 15 significant digits, at most 7 after the point, zero or >= 0.0001 "
+         "(otherwise round(float(x), 7) is not modelled: the model answers unsupported). Examples kept as theorems: C17_nonascii_example, "
+         "C17_list_none_cex, C17_maxsplit_escape_example.",
+    note="unescape is modelled as latin-1/backslashreplace encoding followed by CPython's unicode_escape decoder (validated by stream esc.unesc); "
+         "upper()/lower() only for ASCII (otherwise unsupported); str.isnumeric() above U+007F is a table (Unicode 15.0) validated at every boundary "
+         "by stream ini.isnum; floats are opaque lexemes. No open finding; fixes proposed in this round: C17-e (non-ASCII text through unescape), "
+         "C17-g ('KEY +=VALUE' with a blank before '+=').",
     design_ref="5/C17",
 )
 
@@ -471,7 +489,7 @@ def gen_ini(rng):
     for _ in range(rng.choice([0, 1, 2, 3, 4, 5])):
         k = rng.choice(keys)
         if rng.random() < 0.25:
-            k = k.rstrip() + "+"
+            k = k.rstrip() + rng.choice(["+", "+", " +"])
         t = rng.randrange(9)
         if t == 0:
             v = rng.choice([0, 7, -3, 10**10])
@@ -729,6 +747,8 @@ def check_ini_concat(c):
     ta, tb = ini_typed(a), ini_typed(b)
     key = K.strip().upper()
     for lines, want in (([K + eq + a, K + "+" + eq + b], {key: "%s%s" % (ta, tb)}),
+                        ([K + eq + a, K + " +" + eq + b], {key: "%s%s" % (ta, tb)}),         # blank before '+=' (fix C17-g)
+                        ([" " + K + "\t+" + eq + b], {key: "\x16%s" % (tb,)}),
                         ([K + "+" + eq + b], {key: "\x16%s" % (tb,)}),
                         ([K + "+" + eq + a, K + "+" + eq + b], {key: "\x16%s%s" % (ta, tb)}),
                         ([K + "+" + eq + b, K + eq + a], {key: ta})):
@@ -802,6 +822,8 @@ def shrink_failure(evaluator, case):
     valid = VALID.get(_base(evaluator), lambda c: True)
 
     def still(c):
+        if _base(evaluator).startswith("ini_") and (not isinstance(c, dict) or c.get("eq") != case.get("eq")):
+            return False  # the equal tag is an option of the case: never shrunk
         return valid(c) and fn(c) is not None
 
     return core.shrink(case, still)
@@ -839,11 +861,11 @@ VALID = {
     "ini": lambda c: isinstance(c.get("m"), dict) and c.get("eol") in ("\n", "\r\n") and ini_in_statement(c["m"]),
     "protected": lambda c: _dict_valid(c),
     "keyvalue": lambda c: c.get("eq") and isinstance(c.get("k"), str) and isinstance(c.get("v"), str) and all(ch not in c["eq"] for ch in c["k"]),
-    "ini_concat": lambda c: bool(c.get("eq")) and ini_key_in_statement(c.get("k", ""), c["eq"]) and not c["k"].endswith("+")
+    "ini_concat": lambda c: c.get("eq") in INI_EQS and ini_key_in_statement(c.get("k", ""), c["eq"]) and not c["k"].endswith("+")
     and all(isinstance(c.get(x), str) and "\n" not in c[x] and "\r" not in c[x] for x in ("a", "b")),
-    "ini_comments": lambda c: isinstance(c.get("lines"), list) and isinstance(c.get("noise"), list) and len(c["lines"]) == len(c["noise"])
+    "ini_comments": lambda c: c.get("eq") in INI_EQS and isinstance(c.get("lines"), list) and isinstance(c.get("noise"), list) and len(c["lines"]) == len(c["noise"])
     and all(isinstance(ln, str) and (not nz or _is_noise(ln)) for ln, nz in zip(c["lines"], c["noise"])),
-    "ini_lines": lambda c: isinstance(c.get("lines"), list) and all(isinstance(ln, str) for ln in c["lines"]) and isinstance(c.get("eq"), str),
+    "ini_lines": lambda c: isinstance(c.get("lines"), list) and all(isinstance(ln, str) for ln in c["lines"]) and c.get("eq") in INI_EQS + [""],
 }
 
 
@@ -1029,9 +1051,11 @@ def run(ctx):
             if safe_seps(d, eq):
                 for ch in RESERVED + list(d) + list(eq) + ["\t", "\n", "\r", "\x00", "\x7f", "a", "'"]:
                     dr.append({"m": {"k": ch, "j": "a" + ch + ch + "b"}, "d": d, "eq": eq})
-    for d, eq in (("\u20ac", "="), (";", "\u00e9"), ("\U0001f600", ":"), ("\u20ac;", "=>")):  # reserved characters outside ASCII (fix C17-e)
+    for d, eq in (("\u20ac", "="), (";", "\u00e9"), ("\U0001f600", ":"), ("\u20ac;", "=>"), ("\u00ff", "\u0100"), ("\uffff", "\U00010000"),
+                  ("\U0010ffff", "=")):  # reserved characters outside ASCII, at the borders of the \\xNN / \\uNNNN / \\UNNNNNNNN notations (fix C17-e)
         for ch in list(d) + list(eq) + ["\u00e9", "\u20ac", "\U0001f600", "\\", "\u00ff", "\u0100"]:
             dr.append({"m": {"k": ch, "j": "a" + ch + ch + "\\" + ch}, "d": d, "eq": eq})
+    ctx.correspond("esc.rt/wide", [c for c in dr if non_ascii_case([c["d"], c["eq"]])], rt_line, rt_impl)
     ctx.evaluate("dict_roundtrip", dr, check_dict_roundtrip, nontrivial=lambda c: len(c["m"]) > 0)
     ctx.evaluate("protected", dr, check_protected, nontrivial=lambda c: len(c["m"]) > 0)
     # ---- C: nested mappings serialise
@@ -1104,12 +1128,18 @@ def run(ctx):
         cms.append({"eq": eq, "lines": lines, "noise": noise})
     ctx.evaluate("ini_comments", cms, check_ini_comments, nontrivial=lambda c: any(c["noise"]) and not all(c["noise"]))
     ctx.extra["assumptions"] = [
-        "the model follows the code with fix patches C17-a, C17-b, C17-c, C17-d applied (C17-f concerns parse_ini, which has no model)",
+        "the model follows the code with fix patches C17-a ... C17-g applied",
         "escape character: None/'' or a single character (a longer escape_character is outside the model)",
-        "unescape = UTF-8 encoding followed by CPython 3.12's unicode_escape decoder, hand-modelled (\\N{...} and lone surrogates: unsupported); validated by stream esc.unesc",
+        "unescape = latin-1/backslashreplace encoding followed by CPython 3.12's unicode_escape decoder, hand-modelled (\\N{...} and lone surrogates: unsupported); validated by stream esc.unesc",
         "str.split(sep, maxsplit) is hand-modelled (splitAux) and validated by the esc.split streams with escape None",
         "str.upper()/lower() modelled for ASCII only (unsupported otherwise); str() of int/bool/float as in Val",
         "dict insertion order (dict(pairs)) is modelled by an association list",
-        "INI: no Lean model; load_ini(save_file(m)) is compared with a reference written from the statement (evaluator `ini`)",
+        "INI: int() / float() are modelled as the grammars [+-]digits / [+-]digits.digits on the texts isnumber lets through; round(float(x), 7) and repr only for "
+        "decimals with <= 15 significant digits, <= 7 after the point, zero or >= 0.0001 (else unsupported); values that isnumber accepts and that contain a "
+        "character above U+007F are unsupported; str.isnumeric() above U+007F is a table (Unicode 15.0); keys outside ASCII are unsupported (str.upper)",
+        "INI: the file layer (encoding, utf-8-sig BOM, newline translation of EOL) is not modelled: readLines is universal-newline reading of the text "
+        "save_file is given; stream ini.rt goes through a real file with EOL '\\n', '\\r\\n', '\\r'",
+        "INI: default parse_key / parse_value / comment_tags / default_value / concatenate_sign only; equal_tag one string",
+        "the INI reference of evaluators ini / ini_lines / ini_concat is a Python reading of the statement (trusted)",
     ]
     ctx.extra["trusted_base"] = ["Python transcription of splitSpec in harness/props/c17.py (tied to Lean's splitSpec by stream esc.spec)"]
